@@ -21,7 +21,7 @@ Vocabulary (all defined in the model / proof files):
    specification names are pairwise compatible; `CollsWF`, `SitesApart` — every mounted collection
    is a tree, and contributing sites do not overlap (Proofs/C17_Load.lean, C17_Sites.lean).
 -/
-import ArvVerif.Proofs.C17_Sites
+import ArvVerif.Proofs.C17_Nested
 set_option linter.unusedSimpArgs false
 namespace ArvVerif.C17
 
@@ -492,6 +492,60 @@ theorem C17_frags_conflict_fails (h : Host) (cfg : Cfg) (hwf : HostWF h) (wf : C
   unfold copy
   rw [hscan]
   simp [Res.bind, runPlan, hno]
+
+/-! ## nested mounts (finding F17d) -/
+
+/-- the full statement: every item of mounted content that the specification names (and that a
+successful scan therefore saves, `C17_mount_content_partial`) is what the container sees at the path
+it was taken from — no deeper mount hides it -/
+def C17_mounted_view_Full : Prop :=
+  ∀ (h : Host) (cfg : Cfg) (D y : Path), Site h cfg D y → ∀ f ∈ fragOf cfg D y, Unshadowed cfg D y f
+
+/-- collection A `{g, sub/f}` mounted at `/out/m`, collection B `{f}` mounted on A's directory `sub` -/
+def wCfgD : Cfg :=
+  { ctrOut := ["out"], hostOut := ["o"],
+    mounts := [(["out"], { kind := "tmp" }),
+               (["out", "m"], { kind := "collection", coll := some [([], "g", [7]), (["sub"], "f", [1, 2, 3])] }),
+               (["out", "m", "sub"], { kind := "collection", coll := some [([], "f", [4, 5, 6, 7, 8])] })],
+    secrets := [] }
+
+/-- the full statement is false of the current code (F17d): A's `sub/f`, which the container cannot
+see (B is mounted on `sub`), is an item of the extract for `/out/m` -/
+theorem C17_mounted_view_full_fails : ¬ C17_mounted_view_Full := by
+  intro hfull
+  have s1 : Site [] wCfgD ["m"] ["out", "m"] :=
+    Or.inr ⟨[], ["out"], Jumps.root, by unfold notSecret; decide,
+      { kind := "collection", coll := some [([], "g", [7]), (["sub"], "f", [1, 2, 3])] },
+      by simp [wCfgD], by decide, by decide, by decide, rfl⟩
+  have f1 : (["m", "sub", "f"], some [1, 2, 3]) ∈ fragOf wCfgD ["m"] ["out", "m"] := by
+    simp [fragOf, wCfgD, srcMount, underSecret, rootLen, extract, cleanRel, cleanRelStep]
+  have := hfull [] wCfgD _ _ s1 _ f1 (["out", "m", "sub"], { kind := "collection", coll := some [([], "f", [4, 5, 6, 7, 8])] })
+    (by simp [wCfgD]) (by decide)
+  exact absurd this (by decide)
+
+/-- … and both files are saved as one: the item of A and the item of B have the same output path,
+which `loadManifest` accepts (`FragsCompat`: the same file named again) and appends -/
+theorem C17_mounted_view_merge :
+    (["m", "sub", "f"], some [1, 2, 3]) ∈ fragOf wCfgD ["m"] ["out", "m"] ∧
+    (["m", "sub", "f"], some [4, 5, 6, 7, 8]) ∈ fragOf wCfgD ["m", "sub"] ["out", "m", "sub"] ∧
+    loadFrags [] [(["m", "sub", "f"], some [1, 2, 3]), (["m", "sub", "f"], some [4, 5, 6, 7, 8])] =
+      some [(["m"], .dir), (["m", "sub"], .dir), (["m", "sub", "f"], .file [1, 2, 3, 4, 5, 6, 7, 8])] := by
+  refine ⟨?_, ?_, ?_⟩
+  · simp [fragOf, wCfgD, srcMount, underSecret, rootLen, extract, cleanRel, cleanRelStep]
+  · simp [fragOf, wCfgD, srcMount, underSecret, rootLen, extract, cleanRel, cleanRelStep]
+  · simp [loadFrags, addFrag, mkParents, Tree.get, Tree.set]
+
+/-- **mounted content is the container's view** (partial): when no mount point lies strictly below
+a collection's mount point (`NoNestedMounts`), every item of manifest text that a successful scan
+collects was extracted at a site the specification names and is not hidden by a deeper mount -/
+theorem C17_mounted_view_partial (h : Host) (cfg : Cfg) (hwf : HostWF h) (wf : CfgWF h cfg)
+    (hout : h.get cfg.hostOut = some .dir) (hs : supported cfg = true) (hdirect : Direct h cfg)
+    (hn : NoNestedMounts cfg) (fuel : Nat) (plan : Plan) (hscan : scan h cfg fuel = .ok plan) :
+    ∀ f ∈ plan.frags, ∃ D y, Site h cfg D y ∧ f ∈ fragOf cfg D y ∧ Unshadowed cfg D y f := by
+  intro f hf
+  obtain ⟨D, y, hsite, hmem⟩ :=
+    fragJust_site h cfg plan (scan_frags_sound h cfg hwf wf hout hs hdirect fuel plan hscan) f hf
+  exact ⟨D, y, hsite, hmem, fragOf_unshadowed cfg hn D y f hmem⟩
 
 /-- the full statement: the same for every host tree, without `Direct` -/
 def C17_output_equals_tree_Full : Prop :=
